@@ -148,7 +148,13 @@ impl<K: OneRttKey> KeySet<K> {
 
         match result {
             Ok(packet) => {
-                let generation = if packet_phase != self.key_phase() {
+                // While the derivation timer is armed the inactive slot still holds the *previous*
+                // key: a packet of the other phase that decrypts there is a delayed packet from
+                // before the key update (RFC 9001 section 6.5), not a new update, and must not
+                // rotate the phase back to the old key (RFC 9001 section 6.4).
+                let generation = if packet_phase != self.key_phase()
+                    && !self.key_update_in_progress()
+                {
                     //= https://www.rfc-editor.org/rfc/rfc9001#section-6.2
                     //# Sending keys MUST be updated before sending an
                     //# acknowledgement for the packet that was received with updated keys.
